@@ -104,6 +104,16 @@ type c18Case struct {
 	// Mode: how the fault shows. Writers: 0 short count + error, 1 full count + error, 2 zero count + error.
 	// Readers: 0 error on the call after the last good byte, 1 error together with the last good bytes.
 	Mode int `json:"mode,omitempty"`
+	// Indent (writer "ttml"): "" = no option; "none", "tab", "two" = WriteToTTMLWithIndentOption("", "\t", "  ")
+	Indent string `json:"indent,omitempty"`
+}
+
+// c18Write writes with the options of the case.
+func c18Write(c c18Case, s *astisub.Subtitles, w io.Writer) error {
+	if c.Writer == "ttml" && c.Indent != "" {
+		return s.WriteToTTML(w, astisub.WriteToTTMLWithIndentOption(map[string]string{"none": "", "tab": "\t", "two": "  "}[c.Indent]))
+	}
+	return writeFormat(c.Writer, s, w)
 }
 
 func init() { register("c18", checkC18) }
@@ -161,12 +171,12 @@ func checkC18(c c18Case) string {
 		var msg string
 		withFixedClock(func() {
 			clean := &faultWriter{k: -1}
-			if err := writeFormat(c.Writer, s, clean); err != nil {
+			if err := c18Write(c, s, clean); err != nil {
 				msg = fmt.Sprintf("%s writer failed without any fault: %v", c.Writer, err)
 				return
 			}
 			fw := &faultWriter{k: c.FaultAt, mode: c.Mode}
-			err := writeFormat(c.Writer, s, fw)
+			err := c18Write(c, s, fw)
 			if c.FaultAt >= clean.buf.Len() {
 				// no fault reached: complete document must have been handed over and nil returned
 				if err != nil || !bytes.Equal(fw.buf.Bytes(), clean.buf.Bytes()) {
@@ -321,6 +331,10 @@ func TestC18(t *testing.T) {
 						for k := 0; k <= size; k++ {
 							for mode := 0; mode < 3; mode++ {
 								c := c18Case{Format: src, Doc: doc, Writer: wf, FaultAt: k, Mode: mode}
+								if wf == "ttml" {
+									// the offsets of the default rendering are swept under each per-call option in turn
+									c.Indent = []string{"", "none", "tab", "two"}[(k+mode)%4]
+								}
 								ev.CaseH(k < size, mix(strHash(string(doc)), strHash(wf), uint64(k), uint64(mode)), "write-fault", "writer-"+wf, fmt.Sprintf("write-fault-mode-%d", mode))
 								total++
 								verdict(t, "C18", "c18", c, checkC18)
@@ -354,6 +368,19 @@ func TestC18(t *testing.T) {
 			for _, format := range []string{"srt", "vtt", "ssa", "ttml"} {
 				c := c18Case{Format: format, Doc: []byte(docs[format]), LongLine: true, Cues: 3}
 				ev.CaseH(true, mix(strHash(format), uint64(n)), "long-line", "format-"+format)
+				verdict(t, "C18", "c18", c, checkC18)
+			}
+			// the long line sits in a part of the document the reader skips or does not keep: what follows it still counts
+			skipped := map[string]string{
+				"srt":  "1\n00:00:01,000 --> 00:00:02,000\na\n\n" + long + "\n00:00:03,000 --> 00:00:04,000\nb\n\n3\n00:00:05,000 --> 00:00:06,000\nc\n",
+				"vtt":  "WEBVTT\n\nNOTE " + long + "\n\n00:00:01.000 --> 00:00:02.000\na\n\nSTYLE\n" + long + "\n\n00:00:03.000 --> 00:00:04.000\nb\n\n00:00:05.000 --> 00:00:06.000\nc\n",
+				"ssa":  "[Script Info]\nTitle: t\n\n[Fonts]\nfontname: x.ttf\n" + long + "\n\n[Events]\nFormat: Marked, Start, End, Style, Name, MarginL, MarginR, MarginV, Effect, Text\nDialogue: Marked=0,0:00:01.00,0:00:02.00,,,0,0,0,,a\nDialogue: Marked=0,0:00:03.00,0:00:04.00,,,0,0,0,,b\nDialogue: Marked=0,0:00:05.00,0:00:06.00,,,0,0,0,,c\n",
+				"ssa2": "[Script Info]\nTitle: t\n; " + long + "\n\n[Events]\nFormat: Marked, Start, End, Style, Name, MarginL, MarginR, MarginV, Effect, Text\nDialogue: Marked=0,0:00:01.00,0:00:02.00,,,0,0,0,,a\nComment: Marked=0,0:00:03.00,0:00:04.00,,,0,0,0,," + long + "\nDialogue: Marked=0,0:00:03.00,0:00:04.00,,,0,0,0,,b\nDialogue: Marked=0,0:00:05.00,0:00:06.00,,,0,0,0,,c\n",
+			}
+			for name, doc := range skipped {
+				format := strings.TrimSuffix(name, "2")
+				c := c18Case{Format: format, Doc: []byte(doc), LongLine: true, Cues: 3}
+				ev.CaseH(true, mix(strHash(name), uint64(n), 3), "long-line-in-a-skipped-part", "format-"+format)
 				verdict(t, "C18", "c18", c, checkC18)
 			}
 		}
@@ -424,6 +451,9 @@ func TestC18(t *testing.T) {
 		}
 		if rapid.IntRange(0, 2).Draw(rt, "dir") == 0 && format != "ts" {
 			c := c18Case{Format: format, Doc: doc, Writer: rapid.SampledFrom(writerFormats).Draw(rt, "writer"), FaultAt: rapid.IntRange(0, 6000).Draw(rt, "k"), Mode: rapid.IntRange(0, 2).Draw(rt, "wmode")}
+			if c.Writer == "ttml" {
+				c.Indent = rapid.SampledFrom([]string{"", "none", "tab", "two"}).Draw(rt, "indent")
+			}
 			ev.Case(true, fmt.Sprintf("%v", c), "random", "write-fault", "writer-"+c.Writer)
 			verdict(rt, "C18", "c18", c, checkC18)
 			return
